@@ -32,6 +32,7 @@ fn main() {
             Some("W") => checks_w::replay(&v),
             _ if v["replay"]["engine"].as_str() == Some("crash") => checks_crash::replay(&v),
             _ if v["replay"]["engine"].as_str() == Some("boot-files") => checks_crash::replay_boot_files(&v),
+            _ if v["replay"]["engine"].as_str() == Some("first-start") => checks_crash::replay_first_start(&v),
             _ if v["replay"]["engine"].as_str() == Some("node-reply") => checks_outage::replay_reply(&v),
             _ if v["replay"]["engine"].as_str() == Some("conform-outage") => match conform::outage_recovery() {
                 Ok(()) => 0,
@@ -51,7 +52,37 @@ fn main() {
         tower::cleanup_scratch();
         std::process::exit(code);
     }
-    let code = match cmd.as_str() {
+    let cmd2 = cmd.clone();
+    let tier = a.tier;
+    let code = std::panic::catch_unwind(std::panic::AssertUnwindSafe(|| run_check(cmd2.as_str(), tier))).unwrap_or_else(|p| {
+        // the explorer died of a panic: if it was raised by the code under test at a site no engine guards,
+        // that is a finding about that code (the property's check could not even be completed); else machinery
+        let msg = world::panic_message(&p);
+        let from_repo = world::LAST_REPO_PANIC.lock().ok().and_then(|g| g.clone());
+        match from_repo {
+            Some(site) if cmd.starts_with('C') => {
+                let dir = report::verif_dir().join("replays");
+                let _ = std::fs::create_dir_all(&dir);
+                let path = dir.join(format!("{cmd}-panic.json"));
+                let _ = std::fs::write(&path, serde_json::json!({"property": cmd, "signature": format!("panic-in-code-under-test:{site}"), "detail": msg}).to_string());
+                println!("VIOLATION property={cmd} replay={}", path.display());
+                println!("  signature: panic-in-code-under-test:{site}");
+                println!("  detail: the code under test panicked at a site the engine does not guard and took the explorer down: {msg}");
+                1
+            }
+            _ => {
+                eprintln!("MACHINERY-ERROR: the harness panicked: {msg}");
+                2
+            }
+        }
+    });
+    tower::cleanup_scratch();
+    std::process::exit(code);
+}
+
+fn run_check(cmd: &str, tier: report::Tier) -> i32 {
+    let a = Tiered { tier };
+    match cmd {
         "smoke" => smoke(),
         "selftest" => sched::selftest(),
         "conform" => conform::main_cmd(),
@@ -78,12 +109,13 @@ fn main() {
         "C20" => checks_pure::c20(a.tier),
         _ => {
             eprintln!("usage: verif <C01..C20|selftest|smoke> [--tier quick|thorough] [--replay file]");
-            let _ = a;
             2
         }
-    };
-    tower::cleanup_scratch();
-    std::process::exit(code);
+    }
+}
+
+struct Tiered {
+    tier: report::Tier,
 }
 
 fn smoke() -> i32 {
